@@ -64,7 +64,9 @@ Lemma attempt_cookies c r :
   m_cookies (q_merged (attempt c r)) = (match c_cookies c with [] => m_cookies (q_merged r) | _ => if q_attempt r =? 0 then c_cookies c else m_cookies (q_merged r) end) /\
   m_cookies_at (q_merged (attempt c r)) = (match c_cookies c with [] => m_cookies_at (q_merged r) | _ => if q_attempt r =? 0 then length (q_cookies r) else m_cookies_at (q_merged r) end).
 Proof.
-  unfold attempt. destruct (fold_left merge_header (c_headers c) (q_headers r, m_headers (q_merged r), q_next r)) as [[hs rec] nx].
+  unfold attempt.
+  destruct (if q_attempt r =? 0 then fold_left merge_header (c_headers c) (q_headers r, m_headers (q_merged r), q_next r)
+            else (q_headers r, m_headers (q_merged r), q_next r)) as [[hs rec] nx].
   match goal with |- context [let '(_, _) := ?x in _] => destruct x as [f' nx'] end.
   destruct (c_cookies c); simpl; auto; destruct (q_attempt r =? 0); auto.
 Qed.
